@@ -185,11 +185,31 @@ def run_impl(rx, tx, psize, pval, frames, active):
     return trace, None
 
 
+def run_impl_partial(rx, frames):
+    """a consumer which takes the first telegram of decode_rx_frame() only and never resumes the generator (next(it, None),
+    a `break` in the loop body): returns the telegrams, or ("error", i, text)"""
+    m = make_machine(rx)
+    out, keep = [], []
+    for i, (fid, d) in enumerate(frames):
+        try:
+            it = iter(m.decode_rx_frame(fid, bytes(d)))
+            first = next(it, None)
+        except Exception as e:  # noqa
+            return ("error", i, f"{type(e).__name__}: {e}")
+        keep.append(it)  # (the suspended generator stays alive, it is neither resumed nor closed)
+        if first is not None:
+            out.append([first[0], list(first[1])])
+    return out
+
+
 def fmt_line(fid, d, style):
     hx = bytes(d).hex().upper()
     ident = f"{fid:03X}" if fid <= 0x7FF else f"{fid:08X}"  # candump writes 29 bit identifiers with 8 digits
     if style == 0:  # candump console format
         return f"  can0  {ident:>8}   [{len(d)}]  " + " ".join(f"{b:02X}" for b in d)
+    if style == 3:  # candump -a: console format with the ASCII column behind the data
+        asc = "".join(chr(b) if 32 <= b < 127 and chr(b) != "'" else "." for b in d)
+        return f"  can0  {ident:>8}   [{len(d)}]  " + " ".join(f"{b:02X}" for b in d) + f"   '{asc}'"
     if style == 1:  # candump -l log format
         return f"(1234567890.123456) can0 {ident}#{hx}"
     return f"(1234567890.123456) can0 {ident}##1{hx}"  # CAN-FD log format
@@ -214,16 +234,22 @@ def log_text(frames, style_of, junk=None, eol="\n"):
     return eol.join(lines) + eol
 
 
-def run_impl_log(rx, frames, style_of, junk=None, eol="\n"):
-    """feed the frames as a candump text log through read_telegrams"""
+def run_impl_log(rx, frames, style_of, junk=None, eol="\n", split_at=None):
+    """feed the frames as a candump text log through read_telegrams; split_at: the log is rotated into two files behind
+    that many lines, which the same reassembler reads one after the other"""
     import contextlib
     m = make_machine(rx)
     text = log_text(frames, style_of, junk, eol)
+    parts = [text]
+    if split_at is not None:
+        lines = text.split(eol)
+        parts = [eol.join(lines[:split_at]) + eol, eol.join(lines[split_at:])]
 
     async def go():
         out = []
-        async for tid, t in m.read_telegrams(io.StringIO(text)):
-            out.append((tid, t))
+        for part in parts:
+            async for tid, t in m.read_telegrams(io.StringIO(part)):
+                out.append((tid, t))
         # (converted only after the whole log was read, like a consumer which queues the telegrams)
         return [[tid, list(t)] for tid, t in out]
 
